@@ -758,6 +758,8 @@ class PE:
         b = self.eval(n.right, env)
         if self.site_hook is not None and isinstance(n.op, ast.Pow):
             self.site_hook("pow", n, env, [a, b])
+        if self.site_hook is not None and isinstance(n.op, ast.Div):
+            self.site_hook("div", n, env, [a, b])
         try:
             return self.binop(n.op, a, b)
         except TypeError as e:
@@ -968,7 +970,7 @@ class PE:
             if attr == "imag":
                 return 0 if not isinstance(base, Node) else dag.fn("Im", base)
             return BuiltinMethod(base, attr)
-        if isinstance(base, (list, dict, str, tuple, set, frozenset)):
+        if isinstance(base, (list, dict, str, tuple, set, frozenset, bytes)):
             return BuiltinMethod(base, attr)
         if isinstance(base, Closure):
             if attr == "__name__":
